@@ -642,7 +642,7 @@ struct IV {
     // one scripted history from `start`, arguments via the chooser
     void history(M const& start, unsigned steps)
     {
-        E e;
+        E e{}; // value-initialised: default-initialisation is the subject of C02's dirty-storage monitor
         fill(e, start);
         m = start;
         std::uint64_t sh0 = vf::mix(N * 31 + VF_ELEM, 0xabc);
